@@ -746,6 +746,36 @@ func ruleNIter(w *World, r *Report) {
 			r.undec("N-ITER", key, w.pos(fn.Pos()), "entry guard not on a state field")
 			continue
 		}
+		// the guard must be false for the re-armed value 0 and true after one increment
+		if k, ok := constInt(cmp.Y); ok {
+			ev := func(x int64) bool {
+				switch cmp.Op {
+				case token.GTR:
+					return x > k
+				case token.GEQ:
+					return x >= k
+				case token.NEQ:
+					return x != k
+				case token.EQL:
+					return x == k
+				case token.LSS:
+					return x < k
+				case token.LEQ:
+					return x <= k
+				}
+				return false
+			}
+			// which successor returns nil?
+			nilOnTrue := false
+			if ret, ok := normalReturn(fn.Blocks[0].Succs[0]); ok && isNilConst(strip(retVal(ret, 0))) {
+				nilOnTrue = true
+			}
+			exhausted := func(x int64) bool { return ev(x) == nilOnTrue }
+			if exhausted(0) || !exhausted(1) {
+				r.bad("N-ITER", key, w.pos(fn.Pos()), fmt.Sprintf("the guard `%s %s %d` does not turn the producer off after exactly one result (armed at 0, incremented once per result): the context node is produced %s", gf.Name(), cmp.Op, k, map[bool]string{true: "never", false: "more than once"}[exhausted(0)]))
+				continue
+			}
+		}
 		okAll := true
 		for _, b := range fn.Blocks {
 			ret, ok := normalReturn(b)
